@@ -30,6 +30,16 @@ Oracle per row:
   test_keyed_accessor_composite_conflict_2) must resolve;
 * ``getattr(row, name)`` agrees with ``row._mapping[name]``.
 
+Genuine defects reported on the unchanged tree (specific mechanisms):
+* ``dedupe-proxy-key-shadows-result-key`` - ``select(func.abs(x), func.abs(y))``:
+  ``row.abs_1`` returns the second function's value (the ``selected_columns`` key of
+  column 2 equals the generated label of column 1);
+* ``unary-minus-registers-inner-column`` - ``select(t.c.a, -t.c.a)``: the result-map
+  entry of ``-t.c.a`` is registered by the inner column, so ``row._mapping[t.c.a]``
+  returns the negated value (TABLENAME_PLUS_COL) or raises ambiguous (default);
+* ``object-key-refused:wrapped-column-dedupe`` - ``select(u.c.a, cast(t.c.a, Integer))``:
+  the cast is flagged "repeated" and cannot be looked up by object.
+
 Guards: lookups by objects that are not in the statement are never made; strings that
 are nobody's name are never looked up (SQLAlchemy keeps internal strings such as
 ``_no_label`` in its keymap); when two positions legitimately share a name either
